@@ -44,7 +44,7 @@ func EqualTable(p *core.Prog, r *core.Report) {
 	neg := func(t tv) tv { return tv{t.a, constant.UnaryOp(token.SUB, t.c, 0)} }
 	vals := []tv{
 		mk(aInt8, "1"), neg(mk(aInt8, "1")), mk(aInt8, "0"),
-		mk(aInt, "2"), mk(aInt32, "97"),
+		mk(aInt, "2"), mk(aInt32, "97"), mk(aInt16, "2"), mk(aUint, "2"), mk(aUint32, "97"),
 		mk(aInt64, "1"), neg(mk(aInt64, "1")), mk(aInt64, "9007199254740992"), mk(aInt64, "9007199254740993"), mk(aInt64, "9223372036854775807"), neg(mk(aInt64, "9223372036854775808")),
 		mk(aUint8, "1"), mk(aUint8, "255"), mk(aUint16, "256"), mk(aUint8, "0"), mk(aUint64, "0"), mk(aInt64, "0"),
 		mk(aUint64, "1"), mk(aUint64, "9007199254740993"), mk(aUint64, "9223372036854775808"), mk(aUint64, "18446744073709551615"),
@@ -269,6 +269,7 @@ func DataWalk(p *core.Prog, r *core.Report) {
 		}
 		okAll := true
 		why := ""
+		seenAnswersFalse := ""
 		for _, rc := range recCalls {
 			marked := false
 			core.EachInstr(g, func(i ssa.Instruction) {
@@ -285,6 +286,24 @@ func DataWalk(p *core.Prog, r *core.Report) {
 					}
 					if lk.Index == mu.Key || sameLoadedCell(lk.Index, mu.Key) {
 						looked = true
+						// … and a pair met again is taken for equal (like reflect.DeepEqual): the comma-ok of the look-up
+						// leads to `return true`
+						for _, ref := range core.Refs(lk) {
+							ex, isEx := ref.(*ssa.Extract)
+							if !isEx || ex.Index != 1 {
+								continue
+							}
+							for _, r2 := range core.Refs(ex) {
+								if ifi, isIf := r2.(*ssa.If); isIf && ifi.Cond == ssa.Value(ex) {
+									tb := ifi.Block().Succs[0]
+									if ret, isRet := tb.Instrs[len(tb.Instrs)-1].(*ssa.Return); isRet && len(ret.Results) == 1 {
+										if k, isK := ret.Results[0].(*ssa.Const); isK && k.Value != nil && k.Value.ExactString() == "false" {
+											seenAnswersFalse = p.Pos(ret.Pos())
+										}
+									}
+								}
+							}
+						}
 					}
 				})
 				// the key carries the identity of both containers
@@ -336,6 +355,11 @@ func DataWalk(p *core.Prog, r *core.Report) {
 				okAll = false
 				why = p.Pos(rc.Pos())
 			}
+		}
+		if seenAnswersFalse != "" {
+			r.Bad(rule, key+":answer", seenAnswersFalse, "a pair of containers met again during the descent is answered `false`: a value that contains itself is then different from an identical one (and from itself, one level down), where reflect.DeepEqual — and the predicate's own shortcut at the top — say equal")
+		} else {
+			r.OK(rule, key+":answer", p.Pos(g.Pos()), "a pair met again is taken for equal")
 		}
 		if okAll {
 			r.OK(rule, key, p.Pos(g.Pos()), fmt.Sprintf("every recursive call (%d) is preceded by a look-up and an insertion of the pair of container identities in the visited set handed down", len(recCalls)))
